@@ -108,6 +108,10 @@ Fixpoint apply_chain (req : request) (ch : list policy) (resp : response) : resp
     {| rs_opts := subnet_opts req p (rs_opts r2); rs_addr := rs_addr r2 |}
   end.
 
+(* the last entry a policy's option list has for option k, if any *)
+Definition last_for (k : N) (ao : list (N * option (list N))) : option (option (list N)) :=
+  match find (fun e => fst e =? k) (rev ao) with Some e => Some (snd e) | None => None end.
+
 (* the value (three-state) the chain leaves for option k when the client asked
    for it and k is not one of the subnet-derived options: that of the innermost
    policy in the chain that mentions k, else what was there before *)
@@ -115,9 +119,7 @@ Fixpoint chain_value (k : N) (ch : list policy) (before : option (option (list N
   match ch with
   | [] => before
   | p :: rest =>
-    chain_value k rest
-      (match find (fun e => fst e =? k) (rev (p_apply p)) with
-       | Some e => Some (snd e)
-       | None => before
-       end)
+    chain_value k rest (match last_for k (p_apply p) with Some v => Some v | None => before end)
   end.
+
+Definition tkeys (t : table) : list N := map fst t.
